@@ -6,6 +6,12 @@ import Bptk.Core.PyWire
   agg <sum|prod|mean|median|std|size|rank:<int>> <operand>
 operand:  N:<literal>   (a leading `-` = negative number)
           E:<name>:<0|1 named>:<keys>:<inner>      keys: comma list of i<nat> | s<name>, `-` = empty
+  expandx <ex>                       nested operator tree assigned to a fresh converter (model `expandE tNow`)
+  stockfresh <name> <ex>             … to a fresh (non-arrayed) stock: full stock function strings, time `t-model.dt`
+  stockx <init literal> <S operand> <ex>     … to the ARRAYED stock S (Stock branch of `_handle_arrayed`)
+  stockel <init literal> <S operand> <E operand>     arrayed stock := arrayed element
+  aggdim <sum|prod> <dim> <operand>  arr_sum / arr_prod with an explicit dimension
+ex:       <operand>  |  O <form> <ex> <ex>      (prefix notation)
 reply:    none | scalar | <toks>  |  vector <0|1> | <key> | <toks> | <key> | <toks> …
           | matrix <m> <n> | <toks> | <toks> …  (row-major)      tokens as wire words (PyWire) -/
 open Bptk.Py Bptk.C10
@@ -60,11 +66,81 @@ def showResult : Option Result → String
   | some (.matrix rows) =>
     s!"matrix {rows.length} {(rows.headD []).length}" ++ String.join (rows.flatten.map fun p => " | " ++ showPy p)
 
+def parseEx : Nat → List String → Option (Ex × List String)
+  | 0, _ => none
+  | fuel + 1, ws =>
+    match ws with
+    | "O" :: f :: rest =>
+      (match parseForm f with
+       | some f =>
+         (match parseEx fuel rest with
+          | some (a, r1) =>
+            (match parseEx fuel r1 with
+             | some (b, r2) => some (.op f a b, r2)
+             | none => none)
+          | none => none)
+       | none => none)
+    | w :: rest => (parseOperand w).map fun o => (Ex.ofOperand o, rest)
+    | [] => none
+
+def parseExAll (ws : List String) : Option Ex :=
+  match parseEx (ws.length + 1) ws with
+  | some (x, []) => some x
+  | _ => none
+
+def parseLit (lit : String) : Option Py :=
+  match lit.toList with
+  | '-' :: r => if r.isEmpty then none else some (.neg (.num (String.ofList r)))
+  | [] => none
+  | _ => some (.num lit)
+
+/-- a result on a stock target `nm`: every entry wrapped in the stock function string -/
+def showStockResult (nm : String) (init : Py) : Option Result → String
+  | none => "none"
+  | some (.scalar p) => "scalar | " ++ showPy (stockFs nm init (some p))
+  | some (.vector named es) =>
+    s!"vector {if named then 1 else 0}" ++
+      String.join (es.map fun (k, p) => " | " ++ k.str ++ " | " ++ showPy (stockFs (nm ++ pathStr [k]) init (some p)))
+  | some (.matrix rows) =>
+    s!"matrix {rows.length} {(rows.headD []).length}" ++
+      String.join ((List.range rows.length).flatMap fun i =>
+        let row := rows.getD i []
+        (List.range row.length).map fun j =>
+          " | " ++ showPy (stockFs (nm ++ pathStr [.i i, .i j]) init (some (row.getD j (.num "?")))))
+
+/-- leaf sub-stocks were set up with the initial value `init`; the stock itself and the row stocks of a
+matrix stock keep the default `0.0` -/
+def showAssign (s : Elem) (init : Py) : Option (List (List Key × Py)) → String
+  | none => "none"
+  | some l => "assign" ++ String.join (l.map fun (pth, p) =>
+      let ini := if pth.length = s.depth then init else .num "0.0"
+      " | " ++ s.name ++ pathStr pth ++ " | " ++ showPy (stockFs (s.name ++ pathStr pth) ini (some p)))
+
 def handle (line : String) : String :=
   match line.trimAscii.toString.splitOn " " with
   | ["expand", f, a, b] =>
     (match parseForm f, parseOperand a, parseOperand b with
      | some f, some a, some b => showResult (expand f a b)
+     | _, _, _ => "bad-op")
+  | "expandx" :: ws =>
+    (match parseExAll ws with
+     | some x => showResult (expandE tNow x)
+     | none => "bad-op")
+  | "stockfresh" :: nm :: ws =>
+    (match parseExAll ws with
+     | some x => showStockResult nm (.num "0.0") (expandE tPrev x)
+     | none => "bad-op")
+  | "stockx" :: lit :: sw :: ws =>
+    (match parseLit lit, parseOperand sw, parseExAll ws with
+     | some init, some (.el s), some x => showAssign s init (stockAssign s x)
+     | _, _, _ => "bad-op")
+  | ["stockel", lit, sw, ew] =>
+    (match parseLit lit, parseOperand sw, parseOperand ew with
+     | some init, some (.el s), some (.el e) => showAssign s init (stockAssignEl s e)
+     | _, _, _ => "bad-op")
+  | ["aggdim", g, d, a] =>
+    (match parseAgg g, d.toNat?, parseOperand a with
+     | some g, some d, some (.el e) => (match aggDim g d e with | some p => "scalar | " ++ showPy p | none => "none")
      | _, _, _ => "bad-op")
   | ["agg", g, a] =>
     (match parseAgg g, parseOperand a with
